@@ -514,6 +514,10 @@ def step_run(spec):
             Xf = np.asarray(X, dtype=float)
             out['Xu_ok'] = bool(np.array_equal(np.asarray(StepwiseSL._all_order_interactions_(X, min(spec['order'], X.shape[1])), dtype=float), expand(Xf, spec['order'])))
             out['pred_ok'] = bool(np.allclose(s.predict(X), s.model_optim.predict(np.hstack([np.ones((X.shape[0], 1)), expand(Xf, spec['order'])[:, out['cols']]]))))
+            # new rows of the SAME shape as the training design (a second cohort of equal size, a counterfactual copy)
+            X2 = X[::-1].copy()
+            X2f = np.asarray(X2, dtype=float)
+            out['pred_new_ok'] = bool(np.allclose(s.predict(X2), s.model_optim.predict(np.hstack([np.ones((X2.shape[0], 1)), expand(X2f, spec['order'])[:, out['cols']]]))))
         except Exception as e:   # noqa
             out['error'] = '%s: %s' % (type(e).__name__, str(e)[:160])
         out['table'] = aic_table(expand(np.asarray(X, dtype=float), spec['order']), y, spec['family'])
@@ -582,6 +586,8 @@ def check_step(ctx, specs, fails):
             bad('StepwiseSL.interactions', '_all_order_interactions_ differs from (columns, then all products of 2..order+1 distinct columns)')
         if not o['pred_ok']:
             bad('StepwiseSL.predict', 'predict(X) differs from the optimal GLM applied to the selected columns')
+        if o.get('pred_new_ok') is False:
+            bad('StepwiseSL.predict', 'predict(X_new) for new rows with the shape of the training design differs from the optimal GLM applied to them')
         # (a) path
         if list(m_cols) != o['cols']:
             if relevant_tie(o['table'], ncol):
